@@ -10,7 +10,7 @@ CHECKS = {
     design="4/C01"),
  "C02": dict(
     technique="property-based testing: proptest-generated programs (repaired to valid terminating ones, two surface renderings) run on the virtual shell vs a reference big-step interpreter; per-process probe traces and final status compared",
-    text="Exploration: random programs of the core command language incl. command-search probes, assignment-only commands, commands whose words expand to nothing, aliases in command position and `return` inside subshells of a function; a second driver runs the same programs through the real yash3 start-up code (re-executed harness binary) on the real OS; exact (probe id, $?) sequence of the main process, multiset of child-process sequences and final status must equal the reference interpreter's, under the canonical and a varied surface rendering. Bounded random search with shrinking.",
+    text="Exploration: random programs of the core command language incl. command-search probes, assignment-only commands, commands whose words expand to nothing, aliases in command position and `return` inside subshells of a function; a second driver runs the same programs through the real yash3 start-up code (re-executed harness binary) on the real OS; exact (probe id, $?) sequence of the main process, multiset of child-process sequences and final status must equal the reference interpreter's, under the canonical and a varied surface rendering. Bounded random search with shrinking. Case subjects may contain a failing command substitution (a case command that runs no item still yields zero); shells may be started with -m.",
     note="Trusted: the reference interpreter harness/src/model/interp.rs and its renderer. Only uses of break/continue/return that POSIX defines are generated.",
     design="4/C02"),
  "C05": dict(
@@ -30,12 +30,12 @@ CHECKS = {
     design="4/C07"),
  "C08": dict(
     technique="property-based testing: exhaustive (subshell kind x mutator) grid + proptest mutator sequences under FIFO and seeded schedules; invariant oracle on full parent snapshots before/after and on the child's view at entry",
-    text="Exploration: 10 subshell kinds x 67 state mutators x 3 schedules exhaustively, plus random sequences of 1-5 mutators under random schedules with preemption, also nested in an outer subshell that has mutated its own state, with the subshell ending by falling off the end / exit / death by SIGTERM, SIGINT or SIGQUIT, in non-interactive and interactive (-i, script on stdin) shells; the parent's complete observable state (variables+attributes, functions, aliases, options, positional parameters, traps, cwd, umask, descriptor table by open-file-description identity, signal dispositions) must be identical before and after; the child's view at entry must equal it except for reset command traps. Bounded.",
+    text="Exploration: 10 subshell kinds x 67 state mutators x 3 schedules exhaustively, plus random sequences of 1-5 mutators under random schedules with preemption, also nested in an outer subshell that has mutated its own state, with the subshell ending by falling off the end / exit / death by SIGTERM, SIGINT or SIGQUIT, in non-interactive and interactive (-i, script on stdin) shells; the parent's complete observable state (variables+attributes, functions, aliases, options, positional parameters, traps, cwd, umask, descriptor table by open-file-description identity, signal dispositions) must be identical before and after; the child's view at entry must equal it except for reset command traps. Bounded. Round D/E additions: the subshell command may be started from inside a trap action while another trapped signal has been caught but not yet handled (its trap must be reset in the child like any other, and its action must run exactly once, in the parent).",
     note="Trusted: the snapshot probe (probes.rs) and process inspection (vsys.rs). `$?`, `$!`, the job list and the variable assigned from $( ) are excluded by construction; SIGCHLD handling installed by the shell itself, and the job-control stop signals an interactive shell's subshells keep ignoring, are not counted as differences.",
     design="4/C08"),
  "C09": dict(
     technique="property-based testing + fault enumeration: exhaustive single redirections (18 command kinds incl. a sourced script x 73 operator/operand pairs x 7 targets x noclobber), proptest redirection lists, and a descriptor-limit sweep (RLIMIT_NOFILE 3..16, two ways) against a reference descriptor-table/file model; invariant-only oracle under injected allocation failures",
-    text="Exploration: 18k exhaustive single-redirection cases, 300k (quick) / 10M (thorough) random lists of 1-3 redirections on every command kind with initial exec-opened descriptors, and 4k base cases re-run under every descriptor limit 3..16 so that allocation fails at every position (saving copy, open, here-document file, pipe). Predicted: table seen by the command, table afterwards (identical to before unless exec succeeded), file contents byte for byte, status, diagnostics; always: descriptors >= 10 are close-on-exec, nothing leaks.",
+    text="Exploration: 18k exhaustive single-redirection cases, 300k (quick) / 10M (thorough) random lists of 1-3 redirections on every command kind with initial exec-opened descriptors, and 4k base cases re-run under every descriptor limit 3..16 so that allocation fails at every position (saving copy, open, here-document file, pipe). Predicted: table seen by the command, table afterwards (identical to before unless exec succeeded), file contents byte for byte, status, diagnostics; always: descriptors >= 10 are close-on-exec, nothing leaks. A further fault-enumeration driver (`exhaust`) runs 16 constructs that allocate descriptors themselves (pipelines of 2-5 commands, nested command substitutions, here-documents, sourced scripts, functions with redirections) under every limit 3..20 with 0-4 descriptors opened beforehand, in an interactive shell that survives the failure and in a non-interactive one whose EXIT trap inspects the table: the descriptor table after the construct must equal the one before.",
     note="Trusted: harness/src/model/fdtable.rs and the snapshot probe. Under the limit sweep only the invariants are checked (which step fails is not predicted). Symbolic links and non-regular noclobber targets are not generated (simulator limitations).",
     design="4/C09", level="fault_enumeration"),
  "C10": dict(
@@ -45,7 +45,7 @@ CHECKS = {
     design="4/C10"),
  "C15": dict(
     technique="property-based testing / stateful: exhaustive enumeration of small task systems + proptest larger ones, instrumented futures, invariants over the poll/wake log and equality with a pure FIFO reference scheduler; run_until_stalled vs step() differential",
-    text="Exploration: every system of 1-3 tasks x <=3 actions over 2 channels (6-7 action letters), every parent/child spawn-join system (quick), a strided walk over 4 tasks x <=4 actions (thorough), and random systems of <=8 scripts x <=10 actions; each run twice (run_until_stalled and a step() loop). Invariants: no lost wake-up at a stall, no poll after Ready, no re-entrant poll, no poll without a wake, bounded bypass, wake_count bounds, receiver yields its value exactly once, genuine stall; and the whole log equals a queue-with-duplicate-suppression reference model.",
+    text="Exploration: every system of 1-3 tasks x <=3 actions over 2 channels (6-7 action letters), every parent/child spawn-join system (quick), a strided walk over 4 tasks x <=4 actions (thorough), and random systems of <=8 scripts x <=10 actions; each run twice (run_until_stalled and a step() loop). Invariants: no lost wake-up at a stall, no poll after Ready, no re-entrant poll, no poll without a wake, bounded bypass, wake_count bounds, receiver yields its value exactly once, genuine stall; and the whole log equals a queue-with-duplicate-suppression reference model. A fifth driver hands one Receiver from task to task: every sequence of <=5 polls by up to 3 consumer tasks x every point at which the producer completes x immediate or delayed completion x both run modes; the value must arrive exactly once, at the task that polled last before it existed (or the first to poll afterwards).",
     note="Trusted: the instrumented futures and the reference scheduler in harness/src/props/c15.rs. The exact FIFO order is asserted because the property names a FIFO wake queue; the docs only say 'queue'. Re-queuing of completed tasks by stale wakers is tolerated (not constrained by the property).",
     design="4/C15"),
  "C16": dict(
@@ -64,7 +64,7 @@ CHECKS = {
     design="4/C04"),
  "C11": dict(
     technique="property-based testing / stateful: exhaustive + proptest operation histories on TrapSet over the real SignalSystem implementation against a per-signal reference merge; proptest scripts with a trapped signal delivered by self-kill at every position and asynchronously by the harness scheduler",
-    text="Exploration: every history of <=5 operations (quick: strided, thorough: complete) over a 35-operation alphabet x interactive/non-interactive x 3 sets of initially ignored signals, plus random histories of <=14 operations; after each operation the disposition installed in the simulated process for each of 9 signals must equal max(internal, user/inherited), set_action must fail exactly in the documented cases, take_caught_signal must yield each trapped delivery exactly once. Scripts: 40k (quick) / 2M (thorough) with `kill -s USR1 $$` at every position or SIGUSR1 raised by the scheduler before a generated step: exactly one trap execution, at a command boundary, seeing and preserving $?. Bounded.",
+    text="Exploration: every history of <=5 operations (quick: strided, thorough: complete) over a 35-operation alphabet x interactive/non-interactive x 3 sets of initially ignored signals, plus random histories of <=14 operations; after each operation the disposition installed in the simulated process for each of 9 signals must equal max(internal, user/inherited), set_action must fail exactly in the documented cases, take_caught_signal must yield each trapped delivery exactly once. Scripts: 40k (quick) / 2M (thorough) with `kill -s USR1 $$` at every position or SIGUSR1 raised by the scheduler before a generated step: exactly one trap execution, at a command boundary, seeing and preserving $?. Bounded. Chain driver additions: deliveries that arrive while a multi-command pipeline runs, steps written on one line (one list) instead of one per line, an action that forks a subshell while another signal is pending (no action may run in the child), and an action that sets the other signal's trap again while its delivery is pending (the delivery must not be forgotten).",
     note="Trusted: the reference merge in harness/src/props/c11.rs, the scheduler's asynchronous raise (only when the process currently catches the signal). Deliveries are also made to an interactive shell that reads its script through a pipe in generated chunks, so that the `read` built-in can be blocked when the signal arrives. A third family (chain) covers a signal delivered while another action runs, two signals pending at one boundary, an action that returns from the enclosing function, and delivery by the last command. A delivery made while the shell is blocked inside the `wait` built-in (child held by a probe until after the wait; signal raised by the scheduler when the shell task is blocked) must interrupt it: status > 128, action exactly once before the next command. Terminal/job-control stoppers are exercised at API level only.",
     design="4/C11"),
  "C12": dict(
@@ -89,17 +89,17 @@ CHECKS = {
     design="4/C17"),
  "C18": dict(
     technique="property-based testing / metamorphic: proptest scripts fed as -c string, script file, stdin file and stdin pipe written in generated chunk sizes under generated schedules; compared with a reference line-at-a-time interpretation",
-    text="Exploration: random scripts (alias definitions and uses, read consuming following lines, multi-line commands, here-documents, eval/source of multi-line text, planted syntax errors, offset probes, comments holding arbitrary bytes incl. stray and truncated UTF-8 sequences right before the newline) run in four feeding modes, the pipe optionally inherited non-blocking; probe traces, read values, here-document data, status and (for seekable stdin) the descriptor offset after each command must equal the reference and hence each other, and fd 0 must be in blocking mode whenever a command runs. Bounded.",
+    text="Exploration: random scripts (alias definitions and uses, read consuming following lines, multi-line commands, here-documents, eval/source of multi-line text, planted syntax errors, offset probes, comments holding arbitrary bytes incl. stray and truncated UTF-8 sequences right before the newline) run in four feeding modes, the pipe optionally inherited non-blocking; probe traces, read values, here-document data, status and (for seekable stdin) the descriptor offset after each command must equal the reference and hence each other, and fd 0 must be in blocking mode whenever a command runs. Bounded. A fifth input mode gives the script as a file operand naming a FIFO that a writer process fills in the generated chunks.",
     note="Trusted: the reference interpretation in harness/src/props/c18.rs, the helper process that feeds the pipe (vsys.rs). The pipe feeder yields between chunks so the scheduler interleaves reader and writer; the real OS is not used.",
     design="4/C18"),
  "C19": dict(
     technique="property-based testing / differential: proptest scripts from a 129-statement catalogue run by the same generic shell main on RealSystem (child process in a scratch directory) and on VirtualSystem; stdout, exit status, stderr emptiness and final file tree diffed",
-    text="Exploration: every catalogue statement alone and in two fixed contexts, plus 8k (quick) / 400k (thorough) random scripts of 3-10 statements over redirections, descriptor juggling, cd, globbing, pipelines, substitutions, here-documents, read, subshells, umask, traps with self-signals, background jobs and wait, transfers of 66-150 kB through real pipes, a trapped signal arriving between two forks of one command, signals whose default action is to be ignored, the descriptor limit (last valid descriptor, failed pipe with one free slot), PATH search past directories, wait with a stopped sibling, and error cases; both systems must produce identical stdout, status (incl. death by signal), stderr emptiness and final tree (names, types, contents, permission bits). A real-OS run in which every process of the script is asleep without using CPU for 10 s is reported as a deadlock (state predicate, not a time limit). Bounded; the real side runs under its natural schedule only.",
+    text="Exploration: every catalogue statement alone and in two fixed contexts, plus 8k (quick) / 400k (thorough) random scripts of 3-10 statements over redirections, descriptor juggling, cd, globbing, pipelines, substitutions, here-documents, read, subshells, umask, traps with self-signals, background jobs and wait, transfers of 66-150 kB through real pipes, a trapped signal arriving between two forks of one command, signals whose default action is to be ignored, the descriptor limit (last valid descriptor, failed pipe with one free slot), PATH search past directories, wait with a stopped sibling, and error cases; both systems must produce identical stdout, status (incl. death by signal), stderr emptiness and final tree (names, types, contents, permission bits). A real-OS run in which every process of the script is asleep without using CPU for 10 s is reported as a deadlock (state predicate, not a time limit). Bounded; the real side runs under its natural schedule only. The catalogue (about 185 statements) also covers file offsets (a file truncated through another descriptor, duplicated vs separately opened descriptors, append mode, offsets shared with a subshell), exit statuses beyond 8 bits, `kill` of a child that has been waited for, descriptor exhaustion before a file would be created or truncated, and the default action of 17 signals sent by a subshell to the process group. The shell on the real side always starts with default signal dispositions and an empty mask.",
     note="Trusted: the replicated 12 lines of yash-cli glue (sys.rs), the probe built-ins, tempfile scratch directories. Two simulator limitations are open known findings (symbolic links not followed by open / in mid-path; open(O_CREAT) creating missing directories); permission-denied behaviour is not exercised (root).",
     design="4/C19"),
  "C20": dict(
     technique="property-based testing: exhaustive argument-vector enumeration + proptest vectors against a reference option parser, combinatorial equivalent-spelling groups for the shell command line, and a 222-entry built-in invocation catalogue rewritten into all documented spellings (metamorphic on output, status and state snapshot)",
-    text="Exploration: every vector of <=4 (quick) / <=5 (thorough) tokens from a 23-token alphabet x 9 option specifications x 8 modes compared with a reference parser of the utility syntax guidelines, random longer vectors, ~10k groups of equivalent spellings of the shell's own command line, and 6622 spellings + 1599 malformed variants of 222 catalogue invocations of 31 built-ins (identical stdout/stderr-emptiness/status/state across spellings; rejection without effect for malformed ones).",
+    text="Exploration: every vector of <=4 (quick) / <=5 (thorough) tokens from a 23-token alphabet x 9 option specifications x 8 modes compared with a reference parser of the utility syntax guidelines, random longer vectors, ~10k groups of equivalent spellings of the shell's own command line, and 6622 spellings + 1599 malformed variants of 222 catalogue invocations of 31 built-ins (identical stdout/stderr-emptiness/status/state across spellings; rejection without effect for malformed ones). Every rejected (malformed) invocation that leaves the shell running is also run with a redirection attached, which must be undone like any other effect.",
     note="Trusted: the reference parser (c20a.rs), the catalogue and spelling generator (c20b.rs, derived from docs/src/builtins). Built-ins needing a terminal or stopped jobs are covered only by the malformed-variant check.",
     design="4/C20"),
 }
